@@ -89,3 +89,52 @@ def impl_hier_compile(case):
     res = compile_routine(to_qref(case["routine"]))
     tree = walk_compiled(res.routine, flags)
     return {"tree": tree, "inexact": flags["inexact"]}
+
+
+# ------------------------------------------------------------------ evaluation
+
+FUN_LIBRARY = {
+    "inc": (lambda x: x + 1),
+    "sq": (lambda x: x * x),
+    "lin2": (lambda x, y: x + 2 * y),
+}
+
+
+def _assign_value(v):
+    """assignment values arrive as ["int", n] | ["float", x] | ["str", text]"""
+    kind, val = v[0], v[1]
+    if kind == "int":
+        return int(val)
+    if kind == "float":
+        return float(val)
+    return str(val)
+
+
+def _try_eval(c, assigns, fmap):
+    from bartiq import evaluate
+
+    flags = {"inexact": False}
+    try:
+        cur = c
+        for step in assigns:
+            cur = evaluate(cur, {k: _assign_value(v) for k, v in step}, functions_map=fmap or None).routine
+        return {"ok": True, "tree": walk_compiled(cur, flags), "inexact": flags["inexact"]}
+    except BaseException as e:  # noqa: BLE001
+        if type(e).__name__ == "CaseTimeout":
+            raise
+        return {"ok": False, "exc": type(e).__name__, "msg": str(e)[:300]}
+
+
+def impl_eval(case):
+    from bartiq import compile_routine
+    from hier import to_qref
+
+    flags = {"inexact": False}
+    c = compile_routine(to_qref(case["routine"])).routine
+    out = {"compiled": walk_compiled(c, flags)}
+    fmap = {f: FUN_LIBRARY[impl] for f, impl in case.get("functions", [])}
+    out["e1"] = _try_eval(c, [case["assign"]], fmap)
+    out["e2"] = _try_eval(c, [case["perm"]], fmap) if case.get("perm") else {"ok": False, "exc": "skip"}
+    out["e3"] = _try_eval(c, case["split"], fmap) if case.get("split") else {"ok": False, "exc": "skip"}
+    out["inexact"] = flags["inexact"] or any(out[k].get("inexact") for k in ("e1", "e2", "e3"))
+    return out
